@@ -1,7 +1,7 @@
 CONSTANTS
   Mode = "tcp"
   NStart = 1
-  LsnOf <- One
+  NLsn = 1
   NShut = 1
   NConns = 3
   MaxReq = 1
